@@ -321,7 +321,7 @@ func checkOne(repo string, pr *props.Property, tier string) int {
 		fmt.Println("ERROR: known_findings.json:", err)
 		return 2
 	}
-	var obs []an.Ob
+	var obs, shared []an.Ob
 	pkgs, funcs, cgn, fa := 0, 0, 0, 0
 	var cfgNames []string
 	for _, r := range res {
@@ -333,6 +333,8 @@ func checkOne(repo string, pr *props.Property, tier string) int {
 		for _, o := range r.Obs {
 			if o.Prop == pr.ID {
 				obs = append(obs, o)
+			} else if o.Status != an.Info && props.SharedTo(o, pr.ID) != nil {
+				shared = append(shared, o)
 			}
 		}
 		if r.Packages > pkgs {
@@ -391,6 +393,61 @@ func checkOne(repo string, pr *props.Property, tier string) int {
 			}
 		}
 	}
+	// Obligations of sibling properties' rules that also decide a necessary condition of this
+	// property (props.Shares).  They are reported here exactly when the owning rule reports
+	// them; a known finding stays with the property it is listed under, and an undecided
+	// obligation fails the owning check only.
+	type sharedAgg struct {
+		Rule        string `json:"rule"`
+		Why         string `json:"why"`
+		Constructs  string `json:"constructs,omitempty"`
+		Obligations int    `json:"obligations"`
+		Discharged  int    `json:"discharged"`
+		Violated    int    `json:"violated"`
+	}
+	sharedRules := map[string]*sharedAgg{}
+	var sharedNames []string
+	nShared, nSharedDis := 0, 0
+	for _, o := range shared {
+		sh := props.SharedTo(o, pr.ID)
+		name := o.Prop + "." + o.Rule
+		id := name + " " + sh.Key + " " + sh.Pos
+		a := sharedRules[id]
+		if a == nil {
+			a = &sharedAgg{Rule: name, Why: sh.Why, Constructs: strings.TrimSpace(sh.Key + " " + sh.Pos)}
+			sharedRules[id] = a
+			sharedNames = append(sharedNames, id)
+		}
+		nShared++
+		a.Obligations++
+		switch o.Status {
+		case an.Discharged:
+			nSharedDis++
+			a.Discharged++
+		case an.Violated:
+			if known.Match(o) >= 0 {
+				continue
+			}
+			a.Violated++
+			nViol++
+			if !violPrinted[o.ID()] {
+				violPrinted[o.ID()] = true
+				f := filepath.Join(outDir, fmt.Sprintf("%03d.json", len(violPrinted)))
+				an.WriteJSON(f, map[string]any{"obligation": o, "repo": repo, "tree": th, "reported_under": pr.ID})
+				fmt.Printf("VIOLATION property=%s replay=%s\n", pr.ID, f)
+				fmt.Printf("  rule %s (shared with %s: %s) construct %q at %s [%s]: %s\n", name, pr.ID, sh.Why, o.Key, o.Pos, o.Config, o.Msg)
+				for _, fct := range o.Facts {
+					fmt.Printf("    %s\n", fct)
+				}
+			}
+			samples = append(samples, o)
+			exit = 1
+		}
+	}
+	var sharedList []any
+	for _, id := range sharedNames {
+		sharedList = append(sharedList, sharedRules[id])
+	}
 	for _, o := range obs {
 		if o.Status == an.Info {
 			continue
@@ -436,6 +493,10 @@ func checkOne(repo string, pr *props.Property, tier string) int {
 			"distinct_nontrivial": len(distinct),
 			"rule":                "one obligation per (rule, construct, configuration); non-trivial = decided by a dominance/path/dataflow/table-agreement argument rather than mere existence; distinct = distinct (rule, construct) pairs",
 			"rules_applied":       len(rules),
+			"shared_rules":        sharedList,
+			"shared_obligations":  nShared,
+			"shared_discharged":   nSharedDis,
+			"shared_rule":         "obligations of a sibling property's rule that also decide a necessary condition of this property (checker/props/shared.go); reported here exactly when the owning rule reports them, not counted in obligations/discharged above",
 			"samples":             samples,
 			"notes":               infos,
 			"configs":             cfgNames,
@@ -469,8 +530,11 @@ func checkOne(repo string, pr *props.Property, tier string) int {
 					skipped++
 				case r.Error != "":
 					st = "error: " + r.Error
-				case r.Killed:
+				case len(r.reportedBy(pr.ID)) > 0:
 					st = "killed"
+					killed++
+				case r.Killed:
+					st = "reported by the check of " + strings.Join(r.Mutant.Expect, "/") + ": " + strings.Join(r.ByExpect, " ")
 					killed++
 				case r.Mutant.DocumentedMiss != "":
 					st = "not decided: " + r.Mutant.DocumentedMiss
@@ -478,7 +542,7 @@ func checkOne(repo string, pr *props.Property, tier string) int {
 				if st == "missed" || strings.HasPrefix(st, "error") {
 					fmt.Printf("SELFTEST-MISS property=%s mutant=%s is not reported by this property's rules (%s)\n", pr.ID, r.Mutant.Name, st)
 				}
-				rows = append(rows, map[string]any{"mutant": r.Mutant.Name, "config": r.Mutant.Config, "result": st, "reported_by": r.Flagged})
+				rows = append(rows, map[string]any{"mutant": r.Mutant.Name, "config": r.Mutant.Config, "result": st, "reported_by": r.reportedBy(pr.ID), "all_reports": r.Flagged})
 			}
 			cov := ev["coverage"].(map[string]any)
 			cov["mutants_total"] = len(rs)
@@ -534,6 +598,7 @@ func cmdReplay(args []string) int {
 	var rp struct {
 		Obligation an.Ob  `json:"obligation"`
 		Repo       string `json:"repo"`
+		Under      string `json:"reported_under"`
 	}
 	if err := json.Unmarshal(b, &rp); err != nil {
 		fmt.Fprintln(os.Stderr, err)
@@ -552,7 +617,11 @@ func cmdReplay(args []string) int {
 			bb, _ := json.MarshalIndent(o, "", " ")
 			fmt.Println(string(bb))
 			if o.Status == an.Violated {
-				fmt.Printf("VIOLATION property=%s replay=%s\n", o.Prop, args[0])
+				under := o.Prop
+				if rp.Under != "" {
+					under = rp.Under
+				}
+				fmt.Printf("VIOLATION property=%s replay=%s\n", under, args[0])
 				return 1
 			}
 			fmt.Println("obligation now", o.Status)
